@@ -497,10 +497,62 @@ def rule_window_consistency(prog, fixture=False):
     return r
 
 
+# ---------------------------------------------------------------- R-C17-5
+def _geom_total(fn, e, depth=0):
+    """The geometry object G when e is `G.total_sectors()`, possibly through a never-reassigned local."""
+    e = strip_all(e)
+    if e is None or depth > 4:
+        return None
+    if e.get("k") == "CXXMemberCallExpr" and (strip(e["c"][0]) or {}).get("n") == "total_sectors":
+        return strip_all((strip(e["c"][0]) or {}).get("c", [None])[0])
+    if e.get("k") in ("CXXConstructExpr", "CXXFunctionalCastExpr", "CStyleCastExpr", "CXXStaticCastExpr") and len(e.get("c", [])) == 1:
+        return _geom_total(fn, e["c"][0], depth + 1)
+    if e.get("k") == "DeclRefExpr" and e.get("dk") == "Var":
+        if any(d_ == e["d"] for y in fn.walk() for d_, _ in flow.written_decls(y)):
+            return None
+        for v in fn.walk():
+            if v.get("k") == "VarDecl" and v.get("d") == e["d"] and v.get("c"):
+                return _geom_total(fn, v["c"][0], depth + 1)
+    return None
+
+
+def rule_view_limit_is_own_geometry(prog, fixture=False):
+    r = RuleResult("R-C17-5", "each surface view is limited to the sector count of the geometry it is given: the "
+                   "`total` argument of FileView is <its geometry argument>.total_sectors() (not the count of the "
+                   "whole two-sided image, which would let reads run on into the other side's or the next slot's data)",
+                   floor=0 if fixture else 4)
+    for fn in prog.functions.values():
+        for n in fn.walk():
+            if n.get("k") not in ("CXXConstructExpr", "CXXTemporaryObjectExpr") or not notpl(n.get("cls") or "").endswith("FileView") \
+                    or len(n.get("c", [])) < 8:
+                continue
+            geom, total = strip_all(n["c"][3]), n["c"][7]
+            key = "%s::%s::FileView#%d" % (fn.relfile(), fn.qn, len(r.instances) + 1)
+            if flow.folded(n["c"][5]) == 0:
+                r.add(key, fn.loc(n), True, "take = 0: a view through which no I/O is possible", nontrivial=False)
+                continue
+            g2 = _geom_total(fn, total)
+            if g2 is None:
+                r.undecided.append("%s: cannot relate the limit `%s` of this view to a geometry" % (fn.loc(n), show(total)[:40]))
+                continue
+            ok = geom is not None and g2.get("k") == "DeclRefExpr" and geom.get("k") == "DeclRefExpr" and g2.get("d") == geom.get("d")
+            r.add(key, fn.loc(n), ok, "limit = %s.total_sectors()" % show(geom) if ok else
+                  "the view is given the geometry `%s` but is limited to `%s`.total_sectors(): sectors beyond the surface "
+                  "are readable through it" % (show(geom)[:30], show(g2)[:30]))
+    return r
+
+
 def run(ctx):
     prog = ctx.prog("dfs", "N")
     return [rule_bounds(prog), rule_body_read_failure(prog), rule_volume_extent(prog),
-            rule_window_consistency(prog)]
+            rule_window_consistency(prog), rule_view_limit_is_own_geometry(prog), _shared_slot_position(prog)]
+
+
+def _shared_slot_position(prog):
+    from . import c04
+    r = c04.rule_slot_position(prog)
+    r.rule = "R-C17-6"       # a slot's view starts at that slot's own image, so nothing of a neighbouring slot is read
+    return r
 
 
 SELFTESTS = [
